@@ -12,6 +12,7 @@ conserves individuals and island sizes.  (harness/c12_run.py + harness/pa_scenar
 """
 import json
 import os
+import shutil
 import subprocess
 import sys
 import tempfile
@@ -39,6 +40,7 @@ def run(ctx, rep):
             "--budget", str(ctx.n(120, 1500))]
     p = subprocess.run(args, stdout=subprocess.PIPE, stderr=subprocess.STDOUT, env=env, timeout=3 * 3600 if ctx.thorough() else 1300)
     text = p.stdout.decode(errors="replace")
+    shutil.rmtree(out_dir, ignore_errors=True)
     if not os.path.exists(out_json):
         rep.disagree("c12_run.py produced no summary: " + text[-400:], {})
         return
